@@ -145,6 +145,11 @@ func (fc *fnCtx) callFunction(st *State, x *ssa.Call, callee *ssa.Function, args
 		if v, ok := fc.specByContract(st, callee, args, false); ok {
 			return []Val{v}
 		}
+		if c != nil && c.Pure && !c.Inline && callee.Signature.Results().Len() == 1 && allScalar(args) {
+			if v, err := fc.specCall(st, callee, args); err == nil {
+				return []Val{v}
+			}
+		}
 	}
 	if fc.specMode || c != nil && c.Inline || (c == nil && eng.autoInline(callee)) {
 		if fc.depth < maxInlineDepth {
@@ -453,10 +458,28 @@ func (fc *fnCtx) applyContract(st *State, callee *ssa.Function, c *Contract, arg
 	if c.Pure || (c.HasMod && len(c.Modifies) == 0) {
 		// nothing changes
 	} else if c.HasMod {
+		// every modifies item denotes a location of the PRE-state
+		preEnv := env.with(pre)
+		var all []modLoc
+		bad := false
 		for _, m := range c.Modifies {
-			if err := fc.havocModifies(st, env, m); err != nil {
+			locs, err := fc.modLocs(preEnv, m)
+			if err != nil {
 				fc.specError(Clause{Text: "modifies " + m, File: c.File, Line: c.Line}, err)
-				fc.havocAllHeap(st, "bad modifies")
+				bad = true
+				continue
+			}
+			all = append(all, locs...)
+		}
+		if bad {
+			fc.havocAllHeap(st, "bad modifies")
+		}
+		for _, l := range all {
+			h := fc.heapGet(st, l.heap, l.sort)
+			fresh := fc.defs.Declare("hv."+l.heap, l.elemSort)
+			fc.heapSet(st, l.heap, l.sort, fmt.Sprintf("(store %s %s %s)", h, l.ref, fresh))
+			if l.ty != nil {
+				fc.assume(st, fc.S().RangeFact(l.ty, fresh, 1))
 			}
 		}
 	} else {
@@ -471,7 +494,7 @@ func (fc *fnCtx) applyContract(st *State, callee *ssa.Function, c *Contract, arg
 	// 3. results + postconditions
 	sig := callee.Signature
 	var results []Val
-	if c.Pure && c.Extern && sig.Results().Len() == 1 && allScalar(args) {
+	if c.Pure && sig.Results().Len() == 1 && allScalar(args) {
 		// a pure function of scalar arguments: the same uninterpreted application as in specifications
 		name := "spec." + sanitize(callee.String())
 		var srts, ts []string
@@ -509,12 +532,32 @@ func (fc *fnCtx) applyContract(st *State, callee *ssa.Function, c *Contract, arg
 	return results
 }
 
+// allScalar: every argument is a plain value (basic types, or structs/arrays of them): a pure
+// function of such arguments is a mathematical function, modelled by one uninterpreted symbol
+// shared by code call sites and specifications.
 func allScalar(args []Val) bool {
-	for _, a := range args {
-		if a.Ty == nil {
+	var plain func(t types.Type, depth int) bool
+	plain = func(t types.Type, depth int) bool {
+		if depth > 3 {
 			return false
 		}
-		if _, ok := a.Ty.Underlying().(*types.Basic); !ok {
+		switch u := t.Underlying().(type) {
+		case *types.Basic:
+			return true
+		case *types.Struct:
+			for i := 0; i < u.NumFields(); i++ {
+				if !plain(u.Field(i).Type(), depth+1) {
+					return false
+				}
+			}
+			return true
+		case *types.Array:
+			return plain(u.Elem(), depth+1)
+		}
+		return false
+	}
+	for _, a := range args {
+		if a.Ty == nil || !plain(a.Ty, 0) {
 			return false
 		}
 	}
@@ -779,6 +822,21 @@ func (fc *fnCtx) specCall(st *State, fn *ssa.Function, args []Val) (Val, error) 
 	}
 	if v, ok := fc.specByContract(st, fn, args, false); ok {
 		return v, nil
+	}
+	if c := fc.eng.contractFor(fn); c != nil && c.Pure && !c.Inline && sig.Results().Len() == 1 && allScalar(args) {
+		// the same uninterpreted symbol as at code call sites
+		name := "spec." + sanitize(full)
+		var srts, ts []string
+		for _, a := range args {
+			srts = append(srts, fc.S().SortOf(a.Ty))
+			ts = append(ts, a.T)
+		}
+		rt := sig.Results().At(0).Type()
+		fc.S().UFun(name, srts, fc.S().SortOf(rt))
+		if len(ts) == 0 {
+			return Val{T: name, Ty: rt}, nil
+		}
+		return Val{T: app(name, ts...), Ty: rt}, nil
 	}
 	if fn.Blocks != nil && fc.depth < maxInlineDepth {
 		child := &fnCtx{eng: fc.eng, fn: fn, top: fc.top, defs: fc.defs, inline: true, specMode: true, depth: fc.depth + 1}
